@@ -507,7 +507,7 @@ def codec_cases(ctx, out, tmp):
 def maf_route_cases(ctx, out, tmp):
     """MAF sortings in which (order, contigs) reaches the sorter through every constructor / header route."""
     rng = ctx.rng("maf-routes")
-    contig_sets = [["2", "10", "1", "X"], ["X", "10", "2", "1"], ["1", "2", "10", "X"], None]
+    contig_sets = [["2", "10", "1", "X"], ["X", "10", "2", "1"], ["1", "2", "10", "X"], None, SC.LONG]
     for _ in range(ctx.scale(45, 400)):
         order = rng.choice(["Coordinate", "BarcodesAndCoordinate"])
         contigs = rng.choice(contig_sets)
